@@ -42,6 +42,7 @@ def run(F, rep, tier):
     import c05
     c05.start_rules(F, rep)
     import_pass(F, rep)
+    chained_namespace(F, rep)
 
 
 def visit_once(F, rep):
@@ -310,3 +311,41 @@ def import_pass(F, rep, rule="IMPORT-PASS"):
            "that namespace is still being filled by the same pass: `from c use x`, where c has x only through its own "
            "`from d use x`, is accepted or rejected depending on whether c was processed before (the order of `use` lines)",
            rs["sp"])
+
+
+def chained_namespace(F, rep, rule="ISOLATION"):
+    """`a.b.x`: b is looked up in the namespace that `a` resolved to, not in the file the expression is written in.  In the
+    Access arm of namespace_list (and of its type-level twin namespace_type_list) the namespace handed to lookup_global has
+    to come from the recursive call on the prefix."""
+    for fname in ("namespace_list", "namespace_type_list"):
+        fn = F.fns.get(R + fname)
+        if fn is None:
+            rep.anchor_missing("Resolver::" + fname)
+            continue
+        rep.analysed(fn)
+        fl = Flow(fn, fn_body(fn))
+        params = {b["hid"] for prm in fn["params"] for b in pat_bindings(prm["pat"])}
+        found = 0
+        bad = []
+        for m in nodes(fn_body(fn), "Match"):
+            for arm in m["arms"]:
+                if not any((pat_variant(a) or "").endswith("::Access") for a in pat_alternatives(arm["pat"])):
+                    continue
+                for c in nodes(arm["body"], "MethodCall"):
+                    if callee(c) != R + "lookup_global":
+                        continue
+                    found += 1
+                    a0 = peel(c["args"][0])
+                    ok = any(callee(x) == R + fname for x in nodes(c["args"][0]) if x.get("k") in ("MethodCall", "Call"))
+                    if not ok and a0.get("k") == "Path" and a0.get("res") == "Local" and a0["hid"] not in params:
+                        o = fl.origin.get(a0["hid"])
+                        src = o.get("src") if o else None
+                        if src is not None and any(callee(x) == R + fname for x in nodes(src) if x.get("k") in ("MethodCall", "Call")):
+                            ok = True
+                    if not ok:
+                        bad.append(line_of(c))
+        rep.ob(rule, "%s|Access|prefix-namespace" % fname, found > 0 and not bad,
+               "in `a.b`, b is looked up in the namespace the prefix a resolved to (%d lookup(s))" % found if found and not bad else
+               "Resolver::%s looks the member of a qualified name up in a namespace that does not come from resolving its "
+               "prefix (the current file's own): `a.b.x` finds the importing file's `b` instead of a's" % fname,
+               bad[0] if bad else fn["sp"])
